@@ -21,13 +21,17 @@ G_PROPS = {
                 opts={"objective_bias": "plateau"}),
     "C05": dict(oracles=["c05"], families=FAMILIES, modes=MODES, n_quick=6000, n_thorough=60000, opts={}),
     "C06": dict(oracles=["c06"], families=FAMILIES, modes=MODES, n_quick=7000, n_thorough=70000,
-                opts={"cycles_bias_one": True, "extreme_p": 0.0, "extreme_every": 3}),
+                opts={"cycles_bias_one": True, "extreme_p": 0.0, "extreme_every": 3, "small_pop_p": 0.0,
+                      "no_long_run": True}),
     "C10": dict(oracles=["c10"], families=FAMILIES, modes=MODES, n_quick=6000, n_thorough=60000,
-                opts={"pop_scales": (1, 1.5, 2, 3), "any_pop_p": 0.5}),
+                opts={"pop_scales": (1, 1.5, 2, 3), "any_pop_p": 0.5, "p_history": 0.35, "p_history_config": 0.6, "small_pop_p": 0.0,
+                      "p_objective_raise": 0.1, "no_long_run": True}),
     "C15": dict(oracles=["c15", "c15_trend", "c15"], families=FAMILIES, modes=MODES, n_quick=6000, n_thorough=60000,
                 opts={"p_history": 0.35, "history_utils": True}),
     "C17": dict(oracles=["c17"], families=FAMILIES, modes=MODES, n_quick=6000, n_thorough=60000,
-                opts={"only_classified": "elitist.json", "stop_opts": True, "long_int_runs": 0.5}),
+                opts={"only_classified": "elitist.json", "stop_opts": True, "long_int_runs": 0.5, "any_pop_p": 0.5,
+                      "small_pop_p": 0.2, "p_no_faults": 0.35,
+                      "fault_kinds": scenario.STREAM_FAULTS + scenario.POOL_FAULTS + ["objective_slow_good"] * 3}),
     "C11": dict(oracles=["c11_pool", "c01", "c02", "c03", "c10"], families=FAMILIES, modes=POOLED,
                 n_quick=6000, n_thorough=60000, opts={"p_no_faults": 0.25, "pool_heavy_bias": True, "p_line": 0.15}),
 }
@@ -100,13 +104,30 @@ def make_desc(job):
         # every k-th job of an optimizer takes the next boundary-parameter candidate in turn (full coverage of the
         # finite candidate set instead of random picks)
         o["extreme_index"] = job["opt_rank"] // o["extreme_every"]
-    if fam == "cont_multi" and H(job["seed"], "bigdim") % 4 == 0 and not o.get("no_big_dim"):
-        # size thresholds: a few runs of every optimizer on tasks with tens to hundreds of variables (short and small)
-        o["big_dim"] = r.choice([33, 64, 65, 100, 127, 128, 129, 130, 200, 257])
-        o["cycles"] = (1, 3)
+    big_rank = {5: [129, 130, 131, 160], 25: [64, 65, 127, 128], 45: [33, 100, 200, 257]}.get(job.get("opt_rank"))
+    if big_rank and "cont_multi" in spec["families"] and not o.get("no_big_dim"):
+        # size thresholds: three runs of every optimizer per batch on tasks with tens to hundreds of variables (short,
+        # documented population): one above 128, one around the powers of two below, one more
+        fam = "cont_multi"
+        o["big_dim"] = r.choice(big_rank)
+        o["cycles"] = (1, 1) if job.get("opt_rank") == 5 else (1, 3)
         o["pop_scales"] = (1,)
         o["any_pop_p"] = 0.0
+    long_run = job.get("opt_rank") is not None and job["opt_rank"] % 100 == 15 and not o.get("no_long_run")
+    if long_run:
+        # run length: one run of every optimizer per batch executes a thousand cycles or more (a handful of agents, one
+        # or two variables, serial, no other stop criterion): thresholds on the number of recorded generations
+        o.update({"cycles": (12, 12), "small_pop_p": 1.0, "dim_max": 2, "stop_opts": False, "p_history": 0.0,
+                  "no_via": True, "p_no_faults": 1.0, "p_objective_raise": 0.0, "p_debug": 0.0, "any_pop_p": 0.0,
+                  "extreme_index": None, "extreme_p": 0.0, "perturb_p": 0.0})
+        mode = "serial"
     desc = scenario.gen_scenario(job["seed"], opt, fam, mode, engine_g.make_config, tier=job["tier"], opts=o)
+    if long_run and desc["config"]["population_size"] <= 8:
+        desc["config"]["max_cycles"] = r.choice([1000, 1001, 1003, 1024, 1200, 1999, 2001])
+        try:
+            engine_g.make_config(opt, desc["config"])
+        except Exception:
+            desc["config"]["max_cycles"] = 12
     if o.get("big_dim"):
         desc["step_cap"] = 12_000_000       # bit-string optimizers draw per bit: events grow with the square of the size
     if o.get("history_utils") and desc.get("history"):
@@ -157,7 +178,7 @@ def summarize(job, desc, rec, vs, wall):
         "fault_kinds": sorted({f["kind"] for f in desc.get("faults") or []}),
         "exc": oracles_g.failure_key(desc, rec) if rec.exc is not None else None,
         "injected": bool(rec.raised_injected), "family": desc["task"].get("family"),
-        "step_limit": rec.step_limit, "deadlock": rec.deadlock, "wall": wall,
+        "step_limit": rec.step_limit, "wall_limit": bool(rec.wall_limit), "deadlock": rec.deadlock, "wall": wall,
         "thread_crashes": len(rec.thread_crashes or []),
         "completion_perms": [s["completion_perm"] for s in (rec.pool_sections or [])[:4]],
         "pool_sections": len(rec.pool_sections or []), "greedy_sections": len(rec.greedy or []),
